@@ -194,6 +194,20 @@ func (ex *Exec) libModel(full string, e *ast.CallExpr, callee *types.Func) ([]Va
 			ex.errorf("Errorf with non-constant format")
 		}
 		return []Val{{ex.newError(wrapped), types.Universe.Lookup("error").Type()}}, true
+	case "fmt.Sprintf":
+		// the result is a function of the format literal and the argument values (content identities for strings)
+		format, ok := ex.constString(e.Args[0])
+		var vals []Val
+		for _, a := range e.Args[1:] {
+			vals = append(vals, ex.eval(a))
+		}
+		res := ex.fresh("sprintf", SSlice)
+		ex.assume(App("wfS", SBool, res))
+		if ok && !e.Ellipsis.IsValid() {
+			ex.libUsed["fmt.Sprintf (result identified by format literal and argument values)"] = true
+			ex.assume(Eq(App("cid", SInt, res), ex.fmtIdTerm(format, vals)))
+		}
+		return []Val{{res, types.Typ[types.String]}}, true
 	case "errors.As":
 		ex.libUsed["errors.As"] = true
 		errv := ex.eval(e.Args[0])
@@ -419,6 +433,27 @@ func (ex *Exec) libModelVals(full string, callee *types.Func, recv *Val, args []
 	return nil, false
 }
 
+// fmtIdTerm is the content identity of fmt.Sprintf(format, vals...): an uninterpreted function of the format literal
+// and of the argument values (strings and byte slices by content).
+func (ex *Exec) fmtIdTerm(format string, vals []Val) *T {
+	args := []*T{App("cid", SInt, ex.strLit(format))}
+	sorts := []Sort{SInt}
+	for _, v := range vals {
+		switch v.T.S {
+		case SSlice:
+			args = append(args, App("cid", SInt, v.T))
+		case SBool:
+			args = append(args, Ite(v.T, I(1), I(0)))
+		default:
+			args = append(args, v.T)
+		}
+		sorts = append(sorts, SInt)
+	}
+	name := fmt.Sprintf("fmtId.%d", len(vals))
+	ex.declare(name, sorts, SInt)
+	return App(name, SInt, args...)
+}
+
 // notRepoSentinel states that e is none of, and wraps none of, the repository's sentinel errors.
 func (ex *Exec) notRepoSentinel(e *T) *T {
 	var cs []*T
@@ -466,10 +501,59 @@ func (ex *Exec) mapKey(k Val) *T {
 		}
 		return App("strKey", SInt, k.T)
 	}
-	if _, ok := k.Typ.Underlying().(*types.Struct); ok {
-		ex.assumptions["struct-valued map keys compared by handle"] = true
+	if st, ok := k.Typ.Underlying().(*types.Struct); ok {
+		if !hasStringField(st) {
+			// constructor terms over scalar fields: equal terms iff equal values
+			return k.T
+		}
+		// a struct with string fields is keyed by the contents of those strings
+		name := "skey." + structName(k.Typ)
+		var parts []*T
+		var sorts []Sort
+		for i := 0; i < st.NumFields(); i++ {
+			f := st.Field(i)
+			parts = append(parts, ex.mapKey(Val{ex.vfield(k.T, k.Typ, f), f.Type()}))
+			sorts = append(sorts, SInt)
+		}
+		if _, ok := ex.decls[name]; !ok {
+			ex.declare(name, sorts, SInt)
+			var bvs []string
+			var xs []*T
+			for i := range parts {
+				bvs = append(bvs, fmt.Sprintf("x%d", i))
+				xs = append(xs, Const(fmt.Sprintf("x%d", i), SInt))
+			}
+			app := App(name, SInt, xs...)
+			var inj []*T
+			for i := range parts {
+				inv := fmt.Sprintf("%s$%d", name, i)
+				ex.declare(inv, []Sort{SInt}, SInt)
+				inj = append(inj, Eq(App(inv, SInt, app), xs[i]))
+			}
+			ex.declAxiom(name+"$inj", Forall(bvs, And(inj...), app))
+		}
+		return App(name, SInt, parts...)
+	}
+	if k.T.S == SBool {
+		return Ite(k.T, I(1), I(0))
 	}
 	return k.T
+}
+
+func hasStringField(st *types.Struct) bool {
+	for i := 0; i < st.NumFields(); i++ {
+		switch u := st.Field(i).Type().Underlying().(type) {
+		case *types.Basic:
+			if u.Info()&types.IsString != 0 {
+				return true
+			}
+		case *types.Struct:
+			if hasStringField(u) {
+				return true
+			}
+		}
+	}
+	return false
 }
 
 func (ex *Exec) newMap(mt *types.Map) *T {
@@ -486,9 +570,23 @@ func (ex *Exec) newMap(mt *types.Map) *T {
 
 func (ex *Exec) mapGet(m Val, mt *types.Map, k Val) (*T, *T) { return ex.mapGetIn(ex.st, m, mt, k) }
 
+// rawKey: a specification-level key (a quantified variable ranging over canonical keys) is used as is.
+func rawKey(k Val, mt *types.Map) bool {
+	if k.Typ != typInt {
+		return false
+	}
+	b, ok := mt.Key().Underlying().(*types.Basic)
+	return !ok || b.Info()&types.IsInteger == 0
+}
+
 func (ex *Exec) mapGetIn(st *State, m Val, mt *types.Map, k Val) (*T, *T) {
 	has, val := ex.mapHeaps(mt)
-	kk := ex.mapKey(ex.coerce(k, mt.Key()))
+	var kk *T
+	if rawKey(k, mt) {
+		kk = k.T
+	} else {
+		kk = ex.mapKey(ex.coerce(k, mt.Key()))
+	}
 	h := Select(Select(ex.get(st, has), m.T), kk)
 	h = And(Ne(m.T, I(0)), h)
 	v := Select(Select(ex.get(st, val), m.T), kk)
